@@ -55,7 +55,9 @@ func c14Scenarios(thorough bool) []c14Scenario {
 			{Op: "completion", Doc: "main.journal", Line: 8, Char: 11},
 			{Op: "hover", Doc: "main.journal", Line: 3, Char: 8},
 			{Op: "references", Doc: "main.journal", Line: 3, Char: 8},
+			{Op: "inline", Doc: "main.journal", Line: 7, Char: 0},
 			{Op: "drain"},
+			{Op: "inline", Doc: "main.journal", Line: 7, Char: 0},
 			{Op: "completion", Doc: "main.journal", Line: 8, Char: 11},
 			{Op: "references", Doc: "main.journal", Line: 3, Char: 8},
 		}},
@@ -81,9 +83,11 @@ func c14Scenarios(thorough bool) []c14Scenario {
 				{Op: "open", Doc: "main.journal", Text: c14Main1},
 				{Op: "completion", Doc: "main.journal", Line: 8, Char: 4},
 				{Op: "formatting", Doc: "main.journal"},
+				{Op: "codeaction", Doc: "main.journal"},
 				{Op: "drain"},
 				{Op: "completion", Doc: "main.journal", Line: 8, Char: 4},
 				{Op: "formatting", Doc: "main.journal"},
+				{Op: "codeaction", Doc: "main.journal"},
 			}},
 		{Name: "S6-configuration-pull-fails-then-succeeds", Files: files, Config: true, Bound: b(1, 2),
 			InitCfg: "",
